@@ -22,7 +22,10 @@
      casts (all 2^16 halves, sampled f32/f64).
    * `write_major` still truncates with `n as u64` in its 8-byte arm (unreachable from
      `encode_value` now; kept because the model follows the function as written).
-   * `Vec::with_capacity(len)` panics/aborts are outside this model (C13). *)
+   * commit 65efcf1 (C13 fix): nesting deeper than MAX_DECODE_DEPTH = 128 is rejected
+     (Decode("nesting too deep"), [EDepth]) and declared array/map lengths are charged against
+     a budget of bytes.len() before `Vec::with_capacity` ([dec_value_b]); a length above the
+     remaining budget is `Incomplete`. *)
 From Coq Require Import List NArith ZArith Bool.
 From Echo Require Import Base.Bytes Base.Order.
 Import ListNotations.
@@ -37,6 +40,7 @@ Inductive err :=
 | EIntRange       (* Decode("integer out of range"): unreachable in the code, never produced here *)
 | EUtf8           (* Decode("utf8: ...") *)
 | ESimple         (* Decode("simple value not supported") *)
+| EDepth          (* Decode("nesting too deep"): depth > MAX_DECODE_DEPTH *)
 | EFuel.          (* model artefact; proved unreachable from [decode] *)
 
 Inductive result (A : Type) := Ok (a : A) | Err (e : err).
@@ -350,55 +354,134 @@ Definition dec_float64 (r : bytes) : result (value * bytes) :=
              end
     end).
 
-(* dec_value; [fuel] bounds nesting depth *)
-Fixpoint dec_value (fuel : nat) (b : bytes) : result (value * bytes) :=
+(* the arms of dec_value that do not recurse: majors 0-3, 6, 7 *)
+Definition dec_scalar (major info : N) (r : bytes) : result (value * bytes) :=
+  if major =? 0 then
+    bind (read_len info r) (fun '(n, r1) => Ok (VInt (Z.of_N n), r1))
+  else if major =? 1 then
+    (* Integer::try_from(-(1 + n)) cannot fail for n < 2^64 *)
+    bind (read_len info r) (fun '(n, r1) => Ok (VInt (-1 - Z.of_N n)%Z, r1))
+  else if (major =? 2) || (major =? 3) then
+    bind (read_len info r) (fun '(n, r1) =>
+      if lenN r1 <? n then Err EIncomplete
+      else
+        let data := firstn (N.to_nat n) r1 in
+        let r2 := skipn (N.to_nat n) r1 in
+        if major =? 2 then Ok (VBytes data, r2)
+        else if utf8_valid data then Ok (VText data, r2) else Err EUtf8)
+  else if major =? 6 then Err ETag
+  else
+    if info =? 20 then Ok (VBool false, r)
+    else if info =? 21 then Ok (VBool true, r)
+    else if info =? 22 then Ok (VNull, r)
+    else if info =? 25 then dec_float16 r
+    else if info =? 26 then dec_float32 r
+    else if info =? 27 then dec_float64 r
+    else if info =? 31 then Err EIndefinite
+    else Err ESimple.
+
+Definition MAX_DECODE_DEPTH : N := 128.
+
+(* dec_value WITHOUT the element budget (an auxiliary decoder used in the proofs; the budget only
+   turns some rejections into Incomplete, see [dec_value_b] and the budget lemmas in CborProofs);
+   [fuel] bounds the recursion, [depth] is the Rust `depth` argument *)
+Fixpoint dec_value (fuel : nat) (depth : N) (b : bytes) : result (value * bytes) :=
   match fuel with
   | O => Err EFuel
   | S f =>
+      if MAX_DECODE_DEPTH <? depth then Err EDepth
+      else
       match b with
       | [] => Err EIncomplete
       | b0 :: r =>
           let major := b0 / 32 in
           let info := b0 mod 32 in
-          if major =? 0 then
-            bind (read_len info r) (fun '(n, r1) => Ok (VInt (Z.of_N n), r1))
-          else if major =? 1 then
-            (* Integer::try_from(-(1 + n)) cannot fail for n < 2^64 *)
-            bind (read_len info r) (fun '(n, r1) => Ok (VInt (-1 - Z.of_N n)%Z, r1))
-          else if (major =? 2) || (major =? 3) then
+          if major =? 4 then
             bind (read_len info r) (fun '(n, r1) =>
-              if lenN r1 <? n then Err EIncomplete
-              else
-                let data := firstn (N.to_nat n) r1 in
-                let r2 := skipn (N.to_nat n) r1 in
-                if major =? 2 then Ok (VBytes data, r2)
-                else if utf8_valid data then Ok (VText data, r2) else Err EUtf8)
-          else if major =? 4 then
-            bind (read_len info r) (fun '(n, r1) =>
-            bind (dec_seq (dec_value f) (S (length r1)) n r1) (fun '(items, r2) =>
+            bind (dec_seq (dec_value f (depth + 1)) (S (length r1)) n r1) (fun '(items, r2) =>
               Ok (VArray items, r2)))
           else if major =? 5 then
             bind (read_len info r) (fun '(n, r1) =>
-            bind (dec_map (dec_value f) (S (length r1)) n None r1) (fun '(es, r2) =>
+            bind (dec_map (dec_value f (depth + 1)) (S (length r1)) n None r1) (fun '(es, r2) =>
               Ok (VMap es, r2)))
-          else if major =? 6 then Err ETag
-          else
-            if info =? 20 then Ok (VBool false, r)
-            else if info =? 21 then Ok (VBool true, r)
-            else if info =? 22 then Ok (VNull, r)
-            else if info =? 25 then dec_float16 r
-            else if info =? 26 then dec_float32 r
-            else if info =? 27 then dec_float64 r
-            else if info =? 31 then Err EIndefinite
-            else Err ESimple
+          else dec_scalar major info r
+      end
+  end.
+
+Definition decode_nb (b : bytes) : result value :=
+  match dec_value (S (length b)) 0 b with
+  | Ok (v, []) => Ok v
+  | Ok (_, _ :: _) => Err ETrailing
+  | Err e => Err e
+  end.
+
+(* ---- the decoder as it is: the same traversal threading the element budget
+   (`reserve_elements`: declared container lengths are charged against bytes.len()) ---- *)
+Fixpoint dec_seq_b (d : N -> bytes -> result (value * bytes * N)) (k : nat) (n : N) (bud : N) (b : bytes)
+  : result (list value * bytes * N) :=
+  if n =? 0 then Ok ([], b, bud)
+  else match k with
+       | O => Err EFuel
+       | S k' =>
+           bind (d bud b) (fun '(v, b1, bud1) =>
+           bind (dec_seq_b d k' (n - 1) bud1 b1) (fun '(vs, b2, bud2) => Ok (v :: vs, b2, bud2)))
+       end.
+
+Fixpoint dec_map_b (d : N -> bytes -> result (value * bytes * N)) (k : nat) (n : N) (last : option bytes)
+  (bud : N) (b : bytes) : result (list (value * value) * bytes * N) :=
+  if n =? 0 then Ok ([], b, bud)
+  else match k with
+       | O => Err EFuel
+       | S k' =>
+           bind (d bud b) (fun '(kv, b1, bud1) =>
+           let kb := firstn (length b - length b1) b in
+           let order_ok :=
+             match last with
+             | None => Ok tt
+             | Some prev =>
+                 match bytes_cmp kb prev with
+                 | Eq => Err EMapKeyDup
+                 | Lt => Err EMapKeyOrder
+                 | Gt => Ok tt
+                 end
+             end in
+           bind order_ok (fun _ =>
+           bind (d bud1 b1) (fun '(vv, b2, bud2) =>
+           bind (dec_map_b d k' (n - 1) (Some kb) bud2 b2) (fun '(es, b3, bud3) => Ok ((kv, vv) :: es, b3, bud3)))))
+       end.
+
+Fixpoint dec_value_b (fuel : nat) (depth : N) (bud : N) (b : bytes) : result (value * bytes * N) :=
+  match fuel with
+  | O => Err EFuel
+  | S f =>
+      if MAX_DECODE_DEPTH <? depth then Err EDepth
+      else
+      match b with
+      | [] => Err EIncomplete
+      | b0 :: r =>
+          let major := b0 / 32 in
+          let info := b0 mod 32 in
+          if major =? 4 then
+            bind (read_len info r) (fun '(n, r1) =>
+            if bud <? n then Err EIncomplete            (* reserve_elements *)
+            else
+            bind (dec_seq_b (dec_value_b f (depth + 1)) (S (length r1)) n (bud - n) r1) (fun '(items, r2, bud2) =>
+              Ok (VArray items, r2, bud2)))
+          else if major =? 5 then
+            bind (read_len info r) (fun '(n, r1) =>
+            if bud <? n then Err EIncomplete
+            else
+            bind (dec_map_b (dec_value_b f (depth + 1)) (S (length r1)) n None (bud - n) r1) (fun '(es, r2, bud2) =>
+              Ok (VMap es, r2, bud2)))
+          else bind (dec_scalar major info r) (fun '(v, r1) => Ok (v, r1, bud))
       end
   end.
 
 (* decode_value *)
 Definition decode (b : bytes) : result value :=
-  match dec_value (S (length b)) b with
-  | Ok (v, []) => Ok v
-  | Ok (_, _ :: _) => Err ETrailing
+  match dec_value_b (S (length b)) 0 (lenN b) b with
+  | Ok (v, [], _) => Ok v
+  | Ok (_, _ :: _, _) => Err ETrailing
   | Err e => Err e
   end.
 
@@ -426,17 +509,31 @@ Fixpoint norm (v : value) : value :=
 
 (* every `ciborium::value::Value` the encoder can be given satisfies this: bytes are bytes,
    text is valid UTF-8, lengths fit u64, integers are in [-2^64, 2^64), floats are 64-bit patterns *)
-Fixpoint wf_value (v : value) : bool :=
+Fixpoint wf_shape (v : value) : bool :=
   match v with
   | VBool _ | VNull => true
   | VInt z => ((- 2 ^ 64 <=? z) && (z <? 2 ^ 64))%Z
   | VFloat b => b <? 2 ^ 64
   | VText s => wf_bytes s && utf8_valid s && (lenN s <? 2 ^ 64)
   | VBytes s => wf_bytes s && (lenN s <? 2 ^ 64)
-  | VArray l => (lenN l <? 2 ^ 64) && forallb wf_value l
-  | VMap es => (lenN es <? 2 ^ 64) && forallb (fun kv => wf_value (fst kv) && wf_value (snd kv)) es
-  | VTag t x => (t <? 2 ^ 64) && wf_value x
+  | VArray l => (lenN l <? 2 ^ 64) && forallb wf_shape l
+  | VMap es => (lenN es <? 2 ^ 64) && forallb (fun kv => wf_shape (fst kv) && wf_shape (snd kv)) es
+  | VTag t x => (t <? 2 ^ 64) && wf_shape x
   end.
+
+(* nesting depth: 0 for scalars and empty containers, 1 + the deepest child otherwise (the depth
+   at which the decoder meets the deepest node when the root is at depth 0) *)
+Fixpoint vdepth (v : value) : N :=
+  match v with
+  | VArray l => fold_right (fun x acc => N.max (1 + vdepth x) acc) 0 l
+  | VMap es => fold_right (fun kv acc => N.max (N.max (1 + vdepth (fst kv)) (1 + vdepth (snd kv))) acc) 0 es
+  | VTag _ x => 1 + vdepth x
+  | _ => 0
+  end.
+
+(* the documented domain of the codec: decode_value rejects nesting deeper than MAX_DECODE_DEPTH,
+   so only values of depth <= 128 can round-trip *)
+Definition wf_value (v : value) : bool := wf_shape v && (vdepth v <=? MAX_DECODE_DEPTH).
 
 (* ------------------------------------------------------------------ rendering (tie)
    ASCII text of a value, the same syntax the harness prints:
@@ -481,7 +578,7 @@ Definition err_code (e : err) : N :=
   match e with
   | EIncomplete => 1 | ETrailing => 2 | ETag => 3 | EIndefinite => 4 | ENonCanonInt => 5
   | ENonCanonFloat => 6 | EFloatShouldBeInt => 7 | EMapKeyOrder => 8 | EMapKeyDup => 9
-  | EBadInfo => 10 | EIntRange => 11 | EUtf8 => 12 | ESimple => 13 | EFuel => 99
+  | EBadInfo => 10 | EIntRange => 11 | EUtf8 => 12 | ESimple => 13 | EDepth => 14 | EFuel => 99
   end.
 
 (* (0, bytes) for Ok, (code, []) for Err *)
